@@ -1279,6 +1279,7 @@ class Cycles:
 
         if dtype is not None:
             if dtype is int:
+                cycle_vals = cycle_vals.copy()  # Don't work in place on the caller's array
                 cycle_vals[np.isnan(cycle_vals)] = -1
             cycle_vals = cycle_vals.astype(dtype)
 
